@@ -1,5 +1,6 @@
 /* api_h: executes a history of public API calls (C14).  usage: api_h op op op ...
- * Prints "<op> <return code>" after each call; a watchdog alarm aborts calls that block (exit 9 + line "WATCHDOG <op>"). */
+ * Prints "<op> <return code>" after each call; a watchdog alarm (API_WATCHDOG_S, default 20 s) aborts calls that block
+ * (exit 9 + line "WATCHDOG <op>"); the Python side re-runs such a history alone with a long limit before calling it blocked. */
 #define _GNU_SOURCE
 #include <stdio.h>
 #include <stdlib.h>
@@ -8,6 +9,7 @@
 #include <unistd.h>
 #include "EbSvtAv1Enc.h"
 #include "EbSvtAv1Dec.h"
+#include "param_fields.h"
 
 static const char *cur_op = "";
 static void on_alarm(int s) { (void)s; printf("WATCHDOG %s\n", cur_op); fflush(stdout); _exit(9); }
@@ -46,11 +48,17 @@ int main(int argc, char **argv) {
     { FILE *f = fopen(getenv("API_TU") ? getenv("API_TU") : "/nonexistent", "rb");
       if (f) { tu = malloc(1 << 20); tu_len = fread(tu, 1, 1 << 20, f); fclose(f); } }
     static uint8_t reconbuf[64 * 64 * 4];
+    if (argc > 1 && !strcmp(argv[1], "LAYOUT")) { /* names of every configuration element */
+        char nb[160];
+        for (int k = 0; k < P_NFIELDS; k++) for (int a = 0; a < pfields[k].outer; a++) for (int b = 0; b < pfields[k].inner; b++)
+            printf("%s\n", pf_name(&pfields[k], a, b, nb, sizeof nb));
+        return 0;
+    }
     for (int i = 1; i < argc; i++) {
         const char *op = argv[i];
         long rc = -12345;
         cur_op = op;
-        alarm(20);
+        alarm(getenv("API_WATCHDOG_S") ? (unsigned)atoi(getenv("API_WATCHDOG_S")) : 20);
         /* ---------------- encoder */
         if (!strcmp(op, "IH_NULLP")) rc = svt_av1_enc_init_handle(NULL, NULL, &ecfg);
         else if (!strcmp(op, "IH_NULLC")) { EbComponentType *t = NULL; rc = svt_av1_enc_init_handle(&t, NULL, NULL); if (rc == 0 && t) { svt_av1_enc_deinit_handle(t); } }
@@ -60,6 +68,20 @@ int main(int argc, char **argv) {
         else if (!strcmp(op, "SP_BAD1")) { valid_cfg(); ecfg.qp = 100; rc = svt_av1_enc_set_parameter(eh, &ecfg); }
         else if (!strcmp(op, "SP_BAD2")) { valid_cfg(); ecfg.source_width = 0; rc = svt_av1_enc_set_parameter(eh, &ecfg); }
         else if (!strcmp(op, "SP_BAD3")) { valid_cfg(); ecfg.hierarchical_levels = 9; rc = svt_av1_enc_set_parameter(eh, &ecfg); }
+        else if (!strncmp(op, "SPX:", 4)) { /* SPX:field=value[,field=value]: valid configuration with the named elements overwritten */
+            valid_cfg();
+            EbSvtAv1EncConfiguration xc = ecfg; /* the deviation must not leak into later SP calls */
+            char *a = strdup(op + 4), *sv = NULL;
+            for (char *t = strtok_r(a, ",", &sv); t; t = strtok_r(NULL, ",", &sv)) {
+                char *eq = strchr(t, '='); int pi, pj, k;
+                if (!eq) { printf("UNKNOWN %s\n", op); return 4; }
+                *eq = 0;
+                if ((k = pf_find(t, &pi, &pj)) < 0) { printf("UNKNOWN %s\n", op); return 4; }
+                pf_put(&xc, &pfields[k], pi, pj, strtoll(eq + 1, NULL, 0));
+            }
+            free(a);
+            rc = svt_av1_enc_set_parameter(eh, &xc);
+        }
         else if (!strcmp(op, "SP")) { valid_cfg(); rc = svt_av1_enc_set_parameter(eh, &ecfg); }
         else if (!strcmp(op, "IN_NULL")) rc = svt_av1_enc_init(NULL);
         else if (!strcmp(op, "IN")) rc = svt_av1_enc_init(eh);
